@@ -20,7 +20,7 @@ MATRIX_MON = {"mon_matrix": {"sources": ["mon_matrix.c", "vf.c"]}}
 
 FILTER_MON = {"mon_filter": {"sources": ["mon_filter.c", "vf.c"]}}
 
-C01_MON = {"mon_c01": {"sources": ["mon_c01.c", "vf_req.c", "ref_pixel.c", "ref_ops.c", "vf.c"]}}
+C01_MON = {"mon_c01": {"sources": ["mon_c01.c", "vf_recipes.c", "vf_req.c", "ref_pixel.c", "ref_ops.c", "vf.c"]}}
 GENERAL_ONLY = {"PIXMAN_DISABLE": "fast mmx sse2 ssse3"}
 
 CHAIN_MON = {"mon_chain": {"sources": ["mon_chain.c", "vf_recipes.c", "vf_req.c", "ref_pixel.c", "vf.c"]}}
@@ -133,6 +133,8 @@ PROPS = {
         level="exploration", monitors=C01_MON,
         runs=[dict(name="default-plain", monitor="mon_c01", flavour="plain", cases={"quick": 60000, "thorough": 3000000}),
               dict(name="general-only-plain", monitor="mon_c01", flavour="plain", config="general-only", env=GENERAL_ONLY, cases={"quick": 40000, "thorough": 2000000}),
+              dict(name="c-only-plain", monitor="mon_c01", flavour="plain", config="c-only", env={"PIXMAN_DISABLE": "mmx sse2 ssse3"}, cases={"quick": 20000, "thorough": 1000000}),
+              dict(name="mmx-top-plain", monitor="mon_c01", flavour="plain", config="mmx-top", env={"PIXMAN_DISABLE": "sse2 ssse3"}, cases={"quick": 20000, "thorough": 1000000}),
               dict(name="default-asan", monitor="mon_c01", flavour="asan", cases={"quick": 8000, "thorough": 200000}),
               dict(name="alpha-sweep", monitor="mon_c01", flavour="plain", config="alpha-sweep", cases={"quick": 10752, "thorough": 344064}),
               dict(name="alpha-sweep-general", monitor="mon_c01", flavour="plain", config="alpha-sweep", env=GENERAL_ONLY, cases={"quick": 10752, "thorough": 344064}, tiers=("thorough",))],
@@ -398,7 +400,7 @@ MANIFEST_TEXT["C04"] = dict(
     level_note="trusted: ASan/guard pages as oracle; what counts as described storage is stated in the evidence assumptions")
 
 MANIFEST_TEXT["C01"] = dict(
-    technique="reference-model runtime monitor: exact 8-bit integer rule and real-valued Render/PDF equations evaluated on every destination pixel (default and general-only chains, plain + ASan)",
+    technique="reference-model runtime monitor: exact 8-bit integer rule and real-valued Render/PDF equations evaluated on every destination pixel (default, general-only, C-only and MMX-on-top chains, plain + ASan)",
     level_text="Exploration: ~10^7 (quick) to ~10^9 (thorough) destination pixels over all 53 operators x 3 mask modes x every direct-colour format (narrow, 10-bit, sRGB, float) and operand kind, each compared with an independent oracle: bit-exact for Porter-Duff/ADD on narrow formats, one destination step for float evaluation; the thorough tier walks all 256x256 alpha pairs for the 14 exact operators.",
     level_note="trusted: harness/ref_ops.c (equations from the Render/PDF specifications) and ref_pixel.c (codec); HSL with component alpha, dithering and YUV operands are outside this check; palette operands are judged as their palette entries")
 
